@@ -55,6 +55,8 @@ def compute_generation_log(processing_log: List[dict]) -> GenerationLog:
     output_rails_finished_at = None
 
     activated_rail = None
+    # The rails inside which the current rail runs
+    enclosing_rails: List[ActivatedRail] = []
     executed_action = None
     last_timestamp = None
 
@@ -123,6 +125,10 @@ def compute_generation_log(processing_log: List[dict]) -> GenerationLog:
                 output_rails_started_at = event["timestamp"]
 
             elif event_type == "StartInputRail":
+                if activated_rail is not None and activated_rail.type in ("input", "output"):
+                    # A rail that runs inside another one, e.g. the output rails for the
+                    # message with which an input rail refuses
+                    enclosing_rails.append(activated_rail)
                 activated_rail = ActivatedRail(
                     type="input",
                     name=event_data["flow_id"],
@@ -131,6 +137,8 @@ def compute_generation_log(processing_log: List[dict]) -> GenerationLog:
                 generation_log.activated_rails.append(activated_rail)
 
             elif event_type == "StartOutputRail":
+                if activated_rail is not None and activated_rail.type in ("input", "output"):
+                    enclosing_rails.append(activated_rail)
                 activated_rail = ActivatedRail(
                     type="output",
                     name=event_data["flow_id"],
@@ -167,7 +175,8 @@ def compute_generation_log(processing_log: List[dict]) -> GenerationLog:
                 activated_rail.duration = (
                     activated_rail.finished_at - activated_rail.started_at
                 )
-                activated_rail = None
+                # We are back in the enclosing rail, if any
+                activated_rail = enclosing_rails.pop() if enclosing_rails else None
 
             elif event_type == "InputRailsFinished":
                 input_rails_finished_at = event["timestamp"]
@@ -181,13 +190,19 @@ def compute_generation_log(processing_log: List[dict]) -> GenerationLog:
     # If at the end of the processing we still have an active rail, it is because
     # we have hit a stop. In this case, we take the last timestamp as the timestamp for
     # finishing the rail.
-    if activated_rail is not None:
-        activated_rail.finished_at = last_timestamp
-        activated_rail.duration = activated_rail.finished_at - activated_rail.started_at
+    # (the same holds for the rails inside which that rail was running)
+    for unfinished_rail in enclosing_rails + [activated_rail]:
+        if unfinished_rail is None:
+            continue
 
-        if activated_rail.type in ["input", "output"]:
-            activated_rail.stop = True
-            activated_rail.decisions.append("stop")
+        unfinished_rail.finished_at = last_timestamp
+        unfinished_rail.duration = (
+            unfinished_rail.finished_at - unfinished_rail.started_at
+        )
+
+        if unfinished_rail.type in ["input", "output"]:
+            unfinished_rail.stop = True
+            unfinished_rail.decisions.append("stop")
 
     # If we have input rails, we also record the general stats
     if input_rails_started_at:
